@@ -74,7 +74,8 @@ def run_cli(case, prog, preexisting, o_first):
             with open(outp, "w") as f:
                 f.write(SENTINEL)
         argv = [common.PY, "-W", "ignore", "-m", "oneliner"]
-        oargs = ["-o", outp] if out else []
+        # the output file is named the way users name it: half of the runs by a bare file name relative to the working directory
+        oargs = ["-o", "out.py" if (len(cs) + preexisting + o_first) % 2 else outp] if out else []
         cargs = []
         for c in cs:
             cargs += ["-C", c] if c != "" else ["-C", ""]
